@@ -10,7 +10,7 @@ SEED = os.path.join(V, "seeded")
 # checks other than the mutant's own property that are also expected to see it
 CROSS = {"C01-m1": ["C14", "C16"], "C01-m3": ["C08"], "C02-m2": ["C11"], "C13-m1": ["C11"], "C13-m3": ["C15"],
          "C05-m3": ["C07"], "C16-m2": ["C14"], "C16-m3": ["C03"], "C17-m3": ["C03"],
-         "C06-r4m2": ["C09"], "C06-r4m3": ["C01"], "C11-r4m3": ["C18"]}
+         "C06-r4m2": ["C09"], "C06-r4m3": ["C01"], "C11-r4m3": ["C18"], "C08-r6m3": ["C01"], "C20-r5m3": ["C02"]}
 
 
 def sh(cmd):
